@@ -38,6 +38,7 @@ type c11CCase struct {
 	Pre      []c11CPre    `json:"pre"`
 	Workers  []c11CWorker `json:"workers"`
 	Revokers int          `json:"revokers"` // goroutines revoking the pre-issued entries and serving lists meanwhile
+	Renewers int          `json:"renewers"` // goroutines that keep putting the pre-issued lists into their renewal window and GET them (renewal races the revocations)
 }
 
 func c11CGen(t *rapid.T) c11CCase {
@@ -54,6 +55,9 @@ func c11CGen(t *rapid.T) c11CCase {
 		c.Workers = append(c.Workers, c11CWorker{I: rapid.IntRange(0, c.Issuers-1).Draw(t, "i"), N: rapid.IntRange(1, 5).Draw(t, "n")})
 	}
 	c.Revokers = rapid.IntRange(0, 2).Draw(t, "revokers")
+	if c.Revokers > 0 {
+		c.Renewers = rapid.IntRange(0, 2).Draw(t, "renewers")
+	}
 	return c
 }
 
@@ -64,7 +68,7 @@ type c11Slot struct {
 
 func c11CRunCase(t *testing.T) func(x *h.Ctx, c c11CCase) {
 	return func(x *h.Ctx, c c11CCase) {
-		if c.Issuers < 1 || c.Issuers > c11NIssuers || len(c.Pre) != c.Issuers || len(c.Workers) > 32 || c.Revokers > 8 {
+		if c.Issuers < 1 || c.Issuers > c11NIssuers || len(c.Pre) != c.Issuers || len(c.Workers) > 32 || c.Revokers > 8 || c.Renewers > 8 {
 			return
 		}
 		f := c11Fixture(t)
@@ -185,6 +189,28 @@ func c11CRunCase(t *testing.T) func(x *h.Ctx, c c11CCase) {
 				}
 			}(ri)
 		}
+		for ri := 0; ri < c.Renewers; ri++ {
+			wg.Add(1)
+			go func(ri int) {
+				defer wg.Done()
+				<-start
+				for round := 0; round < 3; round++ {
+					for j, s := range pre {
+						if (j+round)%c.Renewers != ri {
+							continue
+						}
+						// due for renewal: less than minTimeUntilExpired left (only the column matters for the decision)
+						_ = f.dbA.Exec("UPDATE status_list_credential SET expires = ? WHERE subject_id = ?", time.Now().Add(revocation.C11MinTimeUntilExpired-time.Minute).Unix(), s.url).Error
+						didStr, page, _ := c11ParseListURL(s.url)
+						for k, d := range f.dids {
+							if d.String() == didStr {
+								_, _ = f.slA.Credential(f.ctx, f.dids[k], page)
+							}
+						}
+					}
+				}
+			}(ri)
+		}
 		close(start)
 		wg.Wait()
 
@@ -197,6 +223,9 @@ func c11CRunCase(t *testing.T) func(x *h.Ctx, c c11CCase) {
 		x.Classf("workers=%d", len(c.Workers))
 		if c.Revokers > 0 && len(pre) > 0 {
 			x.Class("concurrent-revoke-and-serve")
+			if c.Renewers > 0 {
+				x.Class("concurrent-revoke-and-list-renewal")
+			}
 		}
 		for _, err := range revErrs {
 			x.Violate("concurrent:revoke-error", "Revoke of a handed-out entry failed during concurrent issuance: %v", err)
